@@ -1137,10 +1137,19 @@ func c13WriteInsideRead(c *h.Ctx) {
 			peer := ws.VerifNewConn(peerT, !server, 0, 64, deflate)
 			peerMsgs := []c13Msg{{1, []byte("hello")}, {2, h.LCGBytes(300, 5)}, {1, []byte{}}, {2, h.LCGBytes(70000, 6)}, {1, []byte("bye")}}
 			for i, m := range peerMsgs {
-				peer.WriteMessage(m.ty, m.data)
-				if i == 1 {
+				if i == 1 || i == 3 {
+					// a fragmented message with control frames BETWEEN its fragments (RFC 6455 5.4): the peer pings and
+					// pongs while its message writer is open
+					w, _ := peer.NextWriter(m.ty)
+					w.Write(m.data[:len(m.data)/3])
 					peer.WriteControl(ws.PingMessage, []byte("p"), time.Now().Add(time.Second))
+					w.Write(m.data[len(m.data)/3 : 2*len(m.data)/3])
+					peer.WriteControl(ws.PongMessage, []byte("unsolicited"), time.Now().Add(time.Second))
+					w.Write(m.data[2*len(m.data)/3:])
+					w.Close()
+					continue
 				}
+				peer.WriteMessage(m.ty, m.data)
 			}
 			in := peerT.Written()
 			write := func(conn *ws.Conn) string {
